@@ -19,8 +19,6 @@ namespace Art.Ops
 
 open Art.Drv
 
-instance : Transc Float := ⟨Float.sqrt, Float.exp⟩
-
 private def r (s : String) : Option Rat := parseRat s
 private def v (s : String) : Option (List Rat) := parseVec (α := Rat) s
 private def fv (s : String) : Option (List Float) := parseVec (α := Float) s
